@@ -144,6 +144,8 @@ type Exec struct {
 	errCount int
 	uniq     int
 	seals        []*sealRec
+	hashFacts    []hashFact
+	hashApps     []hashFact
 	signs        []*signRec
 	verifies     []*signRec
 	nkeys        int
